@@ -63,6 +63,7 @@ type decompressor struct {
 	peekSize      int
 	eof           bool
 	srcErr        error // error the source returned together with, or after, its last bytes
+	outputWasFull bool  // the previous step stopped for lack of output room, not of input
 }
 
 func (r *decompressor) Reset(under io.Reader, _ []byte) error {
@@ -85,6 +86,7 @@ func (r *decompressor) Reset(under io.Reader, _ []byte) error {
 	r.peekSize = 0
 	r.eof = false
 	r.srcErr = nil
+	r.outputWasFull = false
 	r.err = nil
 	// forget the previous stream's output: nothing of it may be delivered or
 	// referenced by the next stream
@@ -146,15 +148,18 @@ func (f *decompressor) step() (err error) {
 		// from rBuf yet. Ask the source only for what is needed to make
 		// progress (one byte beyond those), then decode whatever is buffered:
 		// waiting for a full buffer would withhold data already received.
+		// When the previous step stopped because the output window was full,
+		// the bit buffer may still hold symbols to decode: no new byte is needed
+		// to make progress.
 		need := int(state.bitsLen/8) + 1
-		if f.rBuf.Buffered() < need && f.srcErr == nil {
+		if f.rBuf.Buffered() < need && f.srcErr == nil && !f.outputWasFull {
 			if _, err = f.rBuf.Peek(need); err != nil && err != bufio.ErrBufferFull {
 				f.srcErr = err
 			}
 		}
 		state.input, _ = f.rBuf.Peek(f.rBuf.Buffered())
 		f.peekSize = len(state.input)
-		if f.srcErr != nil && f.srcErr != io.EOF && len(state.input) < need {
+		if f.srcErr != nil && f.srcErr != io.EOF && len(state.input) < need && !f.outputWasFull {
 			// nothing new to decode and the source has failed
 			state.input = nil
 			return f.srcErr
@@ -173,6 +178,7 @@ func (f *decompressor) step() (err error) {
 
 	startInputSize, startBitsLen := len(f.state.input), int(f.state.bitsLen)
 	err = f.decomperss()
+	f.outputWasFull = err == errOutputOverflow
 	f.state.rOffset(startInputSize, startBitsLen)
 
 	if isError(err) || (err == errEndInput && f.eof) {
